@@ -528,6 +528,8 @@ def run(ctx):
             if len(axes_used) < 2:
                 continue
             key = '%s.%s' % (mod.name, qual)
+            if qual.split('.')[-1] in ('__str__', '__repr__'):
+                continue        # text rendering of a vector: order of the axes is the point
             if key in exempt:
                 ctx.triage('c04_axis_exempt', key)
                 ctx.assume('C04.R2 exempt %s: %s' % (key, exempt[key]))
